@@ -9,7 +9,7 @@ import knotops as KO
 PID = 'C18'
 STATS = G.STATS
 PARTIAL = [
-    "surface / volume versions of the hull theorem are not stated in Lean (the curve theorem and the general convex-combination lemmas are); checked by the exact oracle",
+    "the volume version of the hull theorem is not stated in Lean (curve and surface are); checked by the exact oracle",
     "length_curve: polyline >= chord and <= control polygon are checked by the oracle in floating point (sqrt); not a Lean theorem",
 ]
 
